@@ -177,6 +177,10 @@ def strip_guard(t):
             if c[0] == 'cmp' and c[1] in (('Gt',), ('NotEq',)) \
                     and c[2] == a and b[0] == 'const':
                 return a
+            # np.where(x == 0, c, x)
+            if c[0] == 'cmp' and c[1] == ('Eq',) and c[2] == b \
+                    and a[0] == 'const':
+                return b
         if nm in ('maximum', 'max') and len(t[2]) == 2:
             consts = [x for x in t[2] if x[0] == 'const']
             other = [x for x in t[2] if x[0] != 'const']
